@@ -215,64 +215,94 @@ theorem zipArrays_ids_ge (l1 l2 : List Arr) : ∀ n x, x ∈ (zipArrays n l1 l2)
       · omega
       · have := ih l2 _ x h; omega
 
-/-- **faithful** for `concatenate(s1, s2)` of two different well-formed sources: every atom and bond of the
-sources is in the result with its fields, attributes, parent and (shifted) index, coordinates and
-partial charges are those of the sources. -/
-theorem concat_faithful {n cls : Nat} {s1 s2 : MolO} (h1 : WF s1) (h2 : WF s2)
-    (hdis : ∀ x ∈ s2.atoms.map (·.id), x ∉ s1.atoms.map (·.id)) :
+/-- **faithful** for `concatenate(s1, s2)` of well-formed sources (which may be one and the same object):
+every atom and bond of the sources is in the result with its fields, attributes, parent and (shifted)
+index, coordinates and partial charges are those of the sources. -/
+theorem concat_faithful {n cls : Nat} {s1 s2 : MolO} (h1 : WF s1) (h2 : WF s2) :
     observe (concat repaired n cls s1 s2) = concatObs cls (observe s1) (observe s2) := by
-  have hlen : ((s1.atoms ++ s2.atoms).map (·.id)).length =
-      ((copyAtoms repaired n (n + 2 + 1) (s1.atoms ++ s2.atoms)).map (·.id)).length := by
+  have hl1 : (s1.atoms.map (·.id)).length = ((copyAtoms repaired n (n + 2 + 1) s1.atoms).map (·.id)).length := by
     simp [copyAtoms_length]
-  have hnd := copyAtoms_ids_nodup repaired n (s1.atoms ++ s2.atoms) (n + 2 + 1)
-  have hends : ∀ b ∈ s1.bonds ++ s2.bonds,
-      (b.a1 ∈ (s1.atoms ++ s2.atoms).map (·.id) ∨
-        b.a1 ∉ (copyAtoms repaired n (n + 2 + 1) (s1.atoms ++ s2.atoms)).map (·.id)) ∧
-      (b.a2 ∈ (s1.atoms ++ s2.atoms).map (·.id) ∨
-        b.a2 ∉ (copyAtoms repaired n (n + 2 + 1) (s1.atoms ++ s2.atoms)).map (·.id)) := by
+  have hl2 : (s2.atoms.map (·.id)).length =
+      ((copyAtoms repaired n (n + 2 + 1 + atomsSize s1.atoms) s2.atoms).map (·.id)).length := by
+    simp [copyAtoms_length]
+  have hnd1 := copyAtoms_ids_nodup repaired n s1.atoms (n + 2 + 1)
+  have hnd2 := copyAtoms_ids_nodup repaired n s2.atoms (n + 2 + 1 + atomsSize s1.atoms)
+  have hnd : ((copyAtoms repaired n (n + 2 + 1) s1.atoms).map (·.id) ++
+      (copyAtoms repaired n (n + 2 + 1 + atomsSize s1.atoms) s2.atoms).map (·.id)).Nodup := by
+    refine List.nodup_append.mpr ⟨hnd1, hnd2, ?_⟩
+    intro a ha b hb hab
+    have := copyAtoms_ids_lt repaired n s1.atoms _ _ ha
+    have := copyAtoms_ids_ge repaired n s2.atoms _ _ hb
+    omega
+  have e1 := obs_copyAtoms n s1.atoms (n + 2 + 1)
+  have e1' := obs_copyAtoms n s2.atoms (n + 2 + 1 + atomsSize s1.atoms)
+  have e2 := obs_copyBonds n _ _ hl1 hnd1 s1.bonds
+    (fun b hb => ⟨Or.inl (h1.bondEnds b hb).1, Or.inl (h1.bondEnds b hb).2⟩)
+    (n + 2 + 1 + atomsSize s1.atoms + atomsSize s2.atoms + 1)
+  have e3 := obs_copyBonds_shift n _ _ _ hl2 hnd s2.bonds h2.bondEnds
+    (n + 2 + 1 + atomsSize s1.atoms + atomsSize s2.atoms + 1 + bondsSize s1.bonds)
+  -- bonds of the first source are observed among all atoms as among its own (its atoms come first)
+  have e2' : (copyBonds repaired n (s1.atoms.map (·.id)) ((copyAtoms repaired n (n + 2 + 1) s1.atoms).map (·.id))
+        (n + 2 + 1 + atomsSize s1.atoms + atomsSize s2.atoms + 1) s1.bonds).map
+        (obsBond n ((copyAtoms repaired n (n + 2 + 1) s1.atoms).map (·.id) ++
+          (copyAtoms repaired n (n + 2 + 1 + atomsSize s1.atoms) s2.atoms).map (·.id))) =
+      s1.bonds.map (obsBondT (s1.atoms.map (·.id))) := by
+    have hlen : ∀ (l : List BondO) (k : Nat) (b : BondO),
+        b ∈ copyBonds repaired n (s1.atoms.map (·.id)) ((copyAtoms repaired n (n + 2 + 1) s1.atoms).map (·.id)) k l →
+        (∀ x ∈ l, x.a1 ∈ s1.atoms.map (·.id) ∧ x.a2 ∈ s1.atoms.map (·.id)) →
+        b.a1 ∈ (copyAtoms repaired n (n + 2 + 1) s1.atoms).map (·.id) ∧
+        b.a2 ∈ (copyAtoms repaired n (n + 2 + 1) s1.atoms).map (·.id) := by
+      intro l
+      have hmem : ∀ x, x ∈ s1.atoms.map (·.id) →
+          mapAtom (s1.atoms.map (·.id)) ((copyAtoms repaired n (n + 2 + 1) s1.atoms).map (·.id)) x ∈
+            (copyAtoms repaired n (n + 2 + 1) s1.atoms).map (·.id) := by
+        intro x hx
+        unfold mapAtom
+        have hlt := hl1 ▸ List.idxOf_lt_length_of_mem hx
+        rw [List.getElem?_eq_getElem hlt, Option.getD_some]
+        exact List.getElem_mem hlt
+      induction l with
+      | nil => intro k b h; simp [copyBonds] at h
+      | cons x l ih =>
+        intro k b h he
+        simp only [copyBonds, List.mem_cons] at h
+        rcases h with h | h
+        · subst h
+          have := he x (List.mem_cons_self)
+          exact ⟨hmem _ this.1, hmem _ this.2⟩
+        · exact ih _ b h (fun y hy => he y (List.mem_cons_of_mem _ hy))
+    rw [← e2]
+    apply List.map_congr_left
     intro b hb
-    simp only [List.map_append, List.mem_append]
-    rcases List.mem_append.mp hb with hb | hb
-    · exact ⟨Or.inl (Or.inl (h1.bondEnds b hb).1), Or.inl (Or.inl (h1.bondEnds b hb).2)⟩
-    · exact ⟨Or.inl (Or.inr (h2.bondEnds b hb).1), Or.inl (Or.inr (h2.bondEnds b hb).2)⟩
-  have e1 := obs_copyAtoms n (s1.atoms ++ s2.atoms) (n + 2 + 1)
-  have e2 := obs_copyBonds n _ _ hlen hnd (s1.bonds ++ s2.bonds) hends
-    (n + 2 + 1 + atomsSize (s1.atoms ++ s2.atoms) + 1)
+    have hm := hlen _ _ b hb h1.bondEnds
+    simp only [obsBond]
+    rw [List.idxOf_append, List.idxOf_append, if_pos hm.1, if_pos hm.2]
   have hA1 := observe_atoms_T h1
   have hA2 := observe_atoms_T h2
   have hB1 := observe_bonds_T h1
   have hB2 := observe_bonds_T h2
-  simp only [repaired] at e1 e2
   simp only [concatObs, hA1, hA2, hB1, hB2]
-  simp only [observe, concat, repaired, Bool.false_eq_true, if_false, scalarAt]
-  rw [e1, e2, zipArrays_data]
-  simp only [List.map_append, List.length_map, Ents.strip, List.map_map]
+  simp only [observe, concat, scalarAt]
+  have hf : repaired.zeroCharges = false := rfl
+  simp only [hf, Bool.false_eq_true, if_false, List.map_append]
+  rw [e1, e1', e2', e3, zipArrays_data]
+  simp only [List.length_map, Ents.strip, List.map_map, copyAtoms_length]
   congr 1
-  congr 1
-  · -- bonds of the first source: ends are atoms of the first source
-    apply List.map_congr_left
-    intro b hb
-    have he := h1.bondEnds b hb
-    simp only [obsBondT]
-    rw [List.idxOf_append, List.idxOf_append, if_pos he.1, if_pos he.2]
-  · -- bonds of the second source: ends are atoms of the second source, not of the first
-    apply List.map_congr_left
-    intro b hb
-    have he := h2.bondEnds b hb
-    simp only [obsBondT, shiftBond, Function.comp]
-    rw [List.idxOf_append, List.idxOf_append, if_neg (hdis _ he.1), if_neg (hdis _ he.2)]
-    simp
 
 theorem concat_fresh (n cls : Nat) (s1 s2 : MolO) : ∀ x ∈ (concat repaired n cls s1 s2).reach, n ≤ x := by
   intro x hx
-  simp only [concat, repaired, Bool.false_eq_true, if_false, MolO.reach, Box.ids, Ents.ids, List.mem_cons,
-    List.mem_append, List.not_mem_nil, or_false] at hx
-  rcases hx with hx | ((hx | hx | hx) | hx | hx) | hx
+  simp only [concat, MolO.reach, Box.ids, Ents.ids, List.mem_cons, List.mem_append, List.not_mem_nil, or_false,
+    List.flatMap_append] at hx
+  have hf : repaired.zeroCharges = false := rfl
+  simp only [hf, Bool.false_eq_true, if_false] at hx
+  rcases hx with hx | ((hx | hx | hx | hx) | hx | hx | hx) | hx
   · omega
   · omega
   · omega
   · have := copyAtoms_reach_ge _ _ _ _ hx; omega
+  · have := copyAtoms_reach_ge _ _ _ _ hx; omega
   · omega
+  · have := copyBonds_reach_ge _ _ _ _ _ _ hx; omega
   · have := copyBonds_reach_ge _ _ _ _ _ _ hx; omega
   · have := zipArrays_ids_ge _ _ _ _ hx; omega
 
@@ -298,5 +328,156 @@ theorem concat_independent {n cls : Nat} {s1 s2 : MolO} (b1 : Below n s1) (b2 : 
     rcases h μ hm with h' | h'
     · exact this.1 h'
     · exact this.2 h'
+
+/-! ## join -/
+
+theorem map_eraseIdx' {α β} (f : α → β) : ∀ (l : List α) (i : Nat), (l.eraseIdx i).map f = (l.map f).eraseIdx i
+  | [], _ => rfl
+  | _ :: _, 0 => rfl
+  | a :: l, i + 1 => by simp [List.eraseIdx, map_eraseIdx' f l i]
+
+theorem join_fresh (n cls : Nat) (s1 s2 : MolO) (i1 i2 : Nat) (sc bf co : List Int) :
+    ∀ x ∈ (join repaired n cls s1 s2 i1 i2 sc bf co).reach, n ≤ x := by
+  intro x hx
+  simp only [join, MolO.reach, Box.ids, Ents.ids, List.mem_cons, List.mem_append, List.not_mem_nil, or_false,
+    List.flatMap_append, List.flatMap_cons, List.flatMap_nil, BondO.reach, List.map_cons, List.append_nil] at hx
+  rcases hx with hx | ((hx | hx | hx) | hx | hx | hx | hx) | hx | hx
+  · omega
+  · omega
+  · omega
+  · have := copyAtoms_reach_ge _ _ _ _ hx; omega
+  · omega
+  · have := copyBonds_reach_ge _ _ _ _ _ _ hx; omega
+  · omega
+  · omega
+  · omega
+  · split at hx
+    · simp only [List.map_cons, List.map_nil, List.mem_cons, List.not_mem_nil, or_false] at hx; omega
+    · simp at hx
+
+/-- **separate** for `join`: the product shares no mutable object with either fragment. -/
+theorem join_separate {n cls : Nat} {s1 s2 : MolO} (b1 : Below n s1) (b2 : Below n s2) (i1 i2 : Nat)
+    (sc bf co : List Int) :
+    ∀ x, x ∈ (join repaired n cls s1 s2 i1 i2 sc bf co).reach → x ∉ s1.reach ∧ x ∉ s2.reach := by
+  intro x hx
+  have h := join_fresh n cls s1 s2 i1 i2 sc bf co x hx
+  exact ⟨fun hs => by have := b1 x hs; omega, fun hs => by have := b2 x hs; omega⟩
+
+/-- **independent** for `join`: "derived molecules never alter their sources", and vice versa. -/
+theorem join_independent {n cls : Nat} {s1 s2 : MolO} (b1 : Below n s1) (b2 : Below n s2) (i1 i2 : Nat)
+    (sc bf co : List Int) (μs : List Mutation) :
+    ((∀ μ ∈ μs, μ.target ∈ (join repaired n cls s1 s2 i1 i2 sc bf co).reach) →
+      applyAll μs s1 = s1 ∧ applyAll μs s2 = s2) ∧
+    ((∀ μ ∈ μs, μ.target ∈ s1.reach ∨ μ.target ∈ s2.reach) →
+      applyAll μs (join repaired n cls s1 s2 i1 i2 sc bf co) = join repaired n cls s1 s2 i1 i2 sc bf co) := by
+  refine ⟨fun h => ⟨?_, ?_⟩, fun h => ?_⟩
+  · exact applyAll_frame μs s1 (fun μ hm => (join_separate b1 b2 i1 i2 sc bf co _ (h μ hm)).1)
+  · exact applyAll_frame μs s2 (fun μ hm => (join_separate b1 b2 i1 i2 sc bf co _ (h μ hm)).2)
+  · apply applyAll_frame
+    intro μ hm hx
+    have := join_separate b1 b2 i1 i2 sc bf co _ hx
+    rcases h μ hm with h' | h'
+    · exact this.1 h'
+    · exact this.2 h'
+
+/-- **faithful** for `join`, atoms: the product has exactly the atoms of the fragments except the two
+attachment points, in order, each with its fields, its attributes, the product as parent (and hence its
+position as index). -/
+theorem join_atoms_faithful {n cls : Nat} {s1 s2 : MolO} (h1 : WF s1) (h2 : WF s2) (i1 i2 : Nat)
+    (sc bf co : List Int) :
+    (observe (join repaired n cls s1 s2 i1 i2 sc bf co)).atoms =
+      (observe s1).atoms.eraseIdx i1 ++ (observe s2).atoms.eraseIdx i2 := by
+  rw [observe_atoms_T h1, observe_atoms_T h2]
+  simp only [observe, join]
+  rw [obs_copyAtoms, List.map_append, map_eraseIdx', map_eraseIdx']
+
+/-- **faithful** for `join`, partial charges (repair D13): those of the atoms that remain. -/
+theorem join_charges_faithful {n cls : Nat} {s1 s2 : MolO} (i1 i2 : Nat) (sc bf co : List Int) (q1 q2 : Arr)
+    (hq1 : s1.arrays[chargeSlot]? = some q1) (hq2 : s2.arrays[chargeSlot]? = some q2) :
+    (observe (join repaired n cls s1 s2 i1 i2 sc bf co)).arrays = [co, dropAt i1 q1 1 ++ dropAt i2 q2 1] := by
+  simp only [observe, join, hq1, hq2]
+  rfl
+
+/-- **faithful** for `join`, bonds (partial: everything but the positions of the ends): the bonds of the
+fragments that do not touch an attachment point, with their fields, attributes and the product as parent,
+followed by the new bond. -/
+theorem join_bonds_partial {n cls : Nat} {s1 s2 : MolO} (i1 i2 : Nat) (sc bf co : List Int) :
+    (observe (join repaired n cls s1 s2 i1 i2 sc bf co)).bonds.map (fun b => (b.fields, b.attrib, b.parentOk)) =
+      ((s1.bonds.filter (fun b => !touches (((s1.atoms[i1]?).map (·.id)).getD 0) b) ++
+        s2.bonds.filter (fun b => !touches (((s2.atoms[i2]?).map (·.id)).getD 0) b)).map
+          (fun b => (b.fields, b.attrib.ents.strip, true))) ++ [(bf, Ents.nil, true)] := by
+  have key : ∀ (l : List BondO) (root : Nat) (old new ids : List Nat) (k : Nat),
+      ((copyBonds repaired root old new k l).map (obsBond root ids)).map (fun b => (b.fields, b.attrib, b.parentOk)) =
+        l.map (fun b => (b.fields, b.attrib.ents.strip, true)) := by
+    intro l root old new ids
+    induction l with
+    | nil => intro k; rfl
+    | cons b l ih =>
+      intro k
+      simp only [copyBonds, List.map_cons, ih]
+      congr 1
+      simp [obsBond, copyBond, repaired, box_strip_renum]
+  simp only [observe, join, List.map_append, List.map_cons, List.map_nil]
+  rw [key]
+  simp [obsBond, Ents.strip]
+
+/-! ## non-vacuity -/
+
+/-- a 3-atom molecule (Molecule: coordinates and charges) with nested attribute containers on the molecule,
+on an atom and on a bond; identities 0 … 16 -/
+def demo : MolO :=
+  { id := 0, cls := 5, scalars := [7, 1, 2],
+    attrib := { id := 1, ents := .scalar 1 5 (.cont 2 0 2 (.scalar 3 4 (.cont 4 1 3 (.scalar 0 9 .nil) .nil)) .nil) },
+    atomsId := 4,
+    atoms := [{ id := 5, fields := [6, 0], attrib := { id := 6, ents := .cont 1 1 7 (.scalar 0 1 .nil) .nil }, parent := some 0 },
+              { id := 8, fields := [8, 0], attrib := { id := 9, ents := .nil }, parent := some 0 },
+              { id := 10, fields := [0, 3], attrib := { id := 11, ents := .nil }, parent := some 0 }],
+    bondsId := 12,
+    bonds := [{ id := 13, a1 := 5, a2 := 8, fields := [1], attrib := { id := 14, ents := .scalar 5 5 .nil }, parent := some 0 },
+              { id := 15, a1 := 8, a2 := 10, fields := [2], attrib := { id := 16, ents := .nil }, parent := some 0 }],
+    arrays := [{ id := 17, data := [1, 2, 3, 4, 5, 6, 7, 8, 9] }, { id := 18, data := [11, 12, 13] }] }
+
+theorem demo_wf : WF demo := by
+  refine ⟨?_, ?_, ?_⟩ <;> decide
+
+theorem demo_below : Below 19 demo := by unfold Below; decide
+
+example : observe (deepCopy repaired 19 demo) = observe demo := deepCopy_faithful demo_wf
+example : sharedIds (deepCopy repaired 19 demo) demo = [] := by decide
+example : observe (concat repaired 19 5 demo demo) = concatObs 5 (observe demo) (observe demo) :=
+  concat_faithful demo_wf demo_wf
+example : (observe (concat repaired 19 5 demo demo)).bonds.map (fun b => (b.e1, b.e2)) = [(0, 1), (1, 2), (3, 4), (4, 5)] := by
+  decide
+example : (observe (join repaired 40 5 demo (deepCopy repaired 19 demo) 2 2 [0, 2, 3] [1]
+    [0, 0, 0, 0, 0, 0, 0, 0, 0, 0, 0, 0])).bonds.map (fun b => (b.e1, b.e2)) = [(0, 1), (2, 3), (1, 3)] := by decide
+/-- a mutation of the copy's nested attribute container changes the copy and not the source -/
+example :
+    let c := deepCopy repaired 19 demo
+    let μ : Mutation := { target := 21, kind := .setKey 9 9 }
+    observe (applyMut μ c) ≠ observe c ∧ applyMut μ demo = demo := by decide
+
+/-! ## the unrepaired routes (flags on): the witnesses the check finds on the unrepaired tree -/
+
+/-- D10: with the shallow `evolve` the copy's atoms hold the source's attribute dictionaries … -/
+theorem shipped_evolve_shares_attrib :
+    6 ∈ sharedIds (deepCopy { repaired with shareAttrib := true } 19 demo) demo := by decide
+
+/-- … so that editing the copy's atom attributes edits the source. -/
+theorem shipped_evolve_not_independent :
+    let c := deepCopy { repaired with shareAttrib := true } 19 demo
+    ∃ μ : Mutation, μ.target ∈ c.reach ∧ observe (applyMut μ demo) ≠ observe demo :=
+  ⟨{ target := 6, kind := .setKey 9 9 }, by decide, by decide⟩
+
+/-- D14: with `attrib.copy()` the nested containers of the molecule's attributes are shared. -/
+theorem shipped_shallow_attrib_shares_nested :
+    sharedIds (deepCopy { repaired with shallowMolAttrib := true } 19 demo) demo = [2, 3] := by decide
+
+/-- D11 / D13: with the charges dropped the copy is not faithful. -/
+theorem shipped_zero_charges_not_faithful :
+    observe (deepCopy { repaired with zeroCharges := true } 19 demo) ≠ observe demo := by decide
+
+/-- D12: without restoring `_parent` the unpickled object is not faithful (parents and indices are lost). -/
+theorem shipped_drop_parent_not_faithful :
+    observe (deepCopy { repaired with dropParent := true } 19 demo) ≠ observe demo := by decide
 
 end Molli.Props.C06
